@@ -17,7 +17,7 @@ from __future__ import annotations
 import ast
 from typing import Dict, List, Optional, Set, Tuple
 
-from ..core import AnalysisError, Ctx, assigned_names, dotted, effective_body, norm, stmts_local, walk_local
+from ..core import Locals, AnalysisError, Ctx, assigned_names, dotted, effective_body, norm, stmts_local, walk_local
 from ..paths import enumerate_paths
 
 
@@ -440,31 +440,44 @@ def from_match_rules(ctx: Ctx, rule: str):
         [norm(a) for a in rets[0].value.args] == [ps[1], f"{ps[0]}.extra", ps[2]]
     ctx.ob(rule, "models.TokenExtractor.get_token/passes-offset", ok,
            "get_token forwards the match, the extractor's extra fields and the caller's offset to the constructor", node=gt, mod=mm)
-    # Hyperscan: slice origin == offset
+    # every token built with an explicit offset: the offset is the origin of the string the match was made on
     tm = repo.mod("tokenizers")
-    hs = repo.func("tokenizers.HyperscanTokenizer.extract_tokens")
-    if hs is not None:
-        found = False
-        for y in [x for x in walk_local(hs) if isinstance(x, ast.Yield)]:
-            c = y.value
-            if not (isinstance(c, ast.Call) and isinstance(c.func, ast.Attribute) and c.func.attr == "get_token"):
+    n_off = 0
+    for q, mod, fn in repo.all_funcs():
+        for c in [x for x in walk_local(fn) if isinstance(x, ast.Call) and isinstance(x.func, ast.Attribute) and x.func.attr in ("get_token", "from_match")]:
+            if c.func.attr == "get_token":
+                off = next((k.value for k in c.keywords if k.arg == "offset"), c.args[1] if len(c.args) > 1 else None)
+            else:
+                off = next((k.value for k in c.keywords if k.arg == "offset"), c.args[2] if len(c.args) > 2 else None)
+            if off is None or (isinstance(off, ast.Constant) and off.value == 0):
                 continue
-            found = True
-            off = next((k.value for k in c.keywords if k.arg == "offset"), c.args[1] if len(c.args) > 1 else None)
+            if q.endswith(".get_token") or q.endswith(".from_match"):
+                continue  # the forwarding definitions themselves (checked above)
+            n_off += 1
             mvar = c.args[0] if c.args else None
-            okk = False
-            why = "match variable / offset not understood"
-            if isinstance(mvar, ast.Name) and off is not None:
-                defs = [s for s in stmts_local(hs.body) if isinstance(s, ast.Assign)
-                        and any(isinstance(t, ast.Name) and t.id == mvar.id for t in s.targets)]
-                if len(defs) == 1 and isinstance(defs[0].value, ast.Call) and defs[0].value.args:
-                    sl = defs[0].value.args[0]
+            okk, why = False, "match variable / offset not understood"
+            if isinstance(mvar, ast.Name):
+                srcs = []
+                for s_ in stmts_local(fn.body):
+                    if isinstance(s_, ast.Assign) and any(isinstance(t, ast.Name) and t.id == mvar.id for t in s_.targets) and isinstance(s_.value, ast.Call):
+                        srcs.append(s_.value)
+                    if isinstance(s_, ast.For) and isinstance(s_.target, ast.Name) and s_.target.id == mvar.id and isinstance(s_.iter, ast.Call):
+                        srcs.append(s_.iter)
+                for n_ in walk_local(fn):
+                    if isinstance(n_, ast.comprehension) and isinstance(n_.target, ast.Name) and n_.target.id == mvar.id and isinstance(n_.iter, ast.Call):
+                        srcs.append(n_.iter)
+                if len(srcs) == 1 and srcs[0].args:
+                    call = srcs[0]
+                    sl = call.args[1] if dotted(call.func) in ("re.match", "re.search", "re.fullmatch", "re.finditer") and len(call.args) > 1 else call.args[0]
+                    sl = Locals(fn).expand(sl, c, depth=1) if isinstance(sl, ast.Name) else sl
                     if isinstance(sl, ast.Subscript) and isinstance(sl.slice, ast.Slice) and sl.slice.lower is not None:
                         okk = norm(sl.slice.lower) == norm(off)
-                        why = f"re-match on `{norm(sl)}` is rebased with offset `{norm(off)}`"
-            ctx.ob(rule, "tokenizers.HyperscanTokenizer.extract_tokens/rebase", okk,
-                   "a match on a slice text[a:b] must be turned into a token with offset a: " + why, node=y, mod=tm)
-        ctx.ob(rule, "tokenizers.HyperscanTokenizer.extract_tokens/yield", found, "yield of get_token located", node=hs, mod=tm, nontrivial=False)
+                        why = f"the match is made on `{norm(sl)}` and rebased with offset `{norm(off)}`"
+                    else:
+                        why = f"the match is made on `{norm(sl)[:40]}`, which is not a slice text[{norm(off)}:..] of the document"
+            ctx.ob(rule, f"{q}/rebase", okk,
+                   "a match on a slice text[a:b] must be turned into a token with offset a, and only such a match may carry an offset: " + why, node=c, mod=mod)
+    ctx.ob(rule, "tokenizers/offset-token-sites", n_off >= 1, f"{n_off} token construction(s) with an explicit offset located", node=None, mod=tm, nontrivial=False)
 
 
 def _from_match_ok(fn: ast.FunctionDef):
